@@ -1,0 +1,87 @@
+// Copyright 2017 Pilosa Corp.
+//
+// Licensed under the Apache License, Version 2.0 (the "License");
+// you may not use this file except in compliance with the License.
+// You may obtain a copy of the License at
+//
+//     http://www.apache.org/licenses/LICENSE-2.0
+//
+// Unless required by applicable law or agreed to in writing, software
+// distributed under the License is distributed on an "AS IS" BASIS,
+// WITHOUT WARRANTIES OR CONDITIONS OF ANY KIND, either express or implied.
+// See the License for the specific language governing permissions and
+// limitations under the License.
+
+//go:build verif
+// +build verif
+
+package proto
+
+import "github.com/pilosa/pilosa/internal"
+
+// Export shim for the verification harness (/verif, property C27). Add-only, tag-guarded.
+
+// VerifC27NewInternal returns a fresh protobuf-side message for the pilosa message type of the
+// given name (the harness fills it by reflection: package internal cannot be imported from
+// outside this module).
+func VerifC27NewInternal(name string) interface{} {
+	switch name {
+	case "CreateShardMessage":
+		return &internal.CreateShardMessage{}
+	case "CreateIndexMessage":
+		return &internal.CreateIndexMessage{}
+	case "DeleteIndexMessage":
+		return &internal.DeleteIndexMessage{}
+	case "CreateFieldMessage":
+		return &internal.CreateFieldMessage{}
+	case "DeleteFieldMessage":
+		return &internal.DeleteFieldMessage{}
+	case "DeleteAvailableShardMessage":
+		return &internal.DeleteAvailableShardMessage{}
+	case "CreateViewMessage":
+		return &internal.CreateViewMessage{}
+	case "DeleteViewMessage":
+		return &internal.DeleteViewMessage{}
+	case "ClusterStatus":
+		return &internal.ClusterStatus{}
+	case "ResizeInstruction":
+		return &internal.ResizeInstruction{}
+	case "ResizeInstructionComplete":
+		return &internal.ResizeInstructionComplete{}
+	case "SetCoordinatorMessage":
+		return &internal.SetCoordinatorMessage{}
+	case "UpdateCoordinatorMessage":
+		return &internal.UpdateCoordinatorMessage{}
+	case "NodeStateMessage":
+		return &internal.NodeStateMessage{}
+	case "RecalculateCaches":
+		return &internal.RecalculateCaches{}
+	case "NodeEvent":
+		return &internal.NodeEventMessage{}
+	case "NodeStatus":
+		return &internal.NodeStatus{}
+	case "Node":
+		return &internal.Node{}
+	case "QueryRequest":
+		return &internal.QueryRequest{}
+	case "QueryResponse":
+		return &internal.QueryResponse{}
+	case "ImportRequest":
+		return &internal.ImportRequest{}
+	case "ImportValueRequest":
+		return &internal.ImportValueRequest{}
+	case "ImportRoaringRequest":
+		return &internal.ImportRoaringRequest{}
+	case "ImportResponse":
+		return &internal.ImportResponse{}
+	case "BlockDataRequest":
+		return &internal.BlockDataRequest{}
+	case "BlockDataResponse":
+		return &internal.BlockDataResponse{}
+	case "TranslateKeysRequest":
+		return &internal.TranslateKeysRequest{}
+	case "TranslateKeysResponse":
+		return &internal.TranslateKeysResponse{}
+	}
+	return nil
+}
